@@ -11,6 +11,7 @@ def analyse(ctx: CheckContext, p: Program):
     ctx.guard(generic_rules, ctx, p, r, "C10")
     cone = r.pipeline_cone()
     ctx.guard(own.check_utility_ownership, ctx, p, r, cone)
+    ctx.guard(own.check_every_zone_served, ctx, p, r, cone)
     ctx.guard(dedup.check_identity_dedup, ctx, p, r, anchor_funcs(p, "C10"))
 
 
